@@ -15,7 +15,10 @@ pub fn comment_p() -> impl Parser<StringView, Output = Statement, Error = Parser
 /// Does not consume the EOL token.
 pub fn comment_as_string_p() -> impl Parser<StringView, Output = String, Error = ParserError> {
     any_symbol_of!('\'').and_keep_right(
-        any_token_of!(TokenType::Eol ; mode = MatchMode::Exclude)
+        // read characters, not tokens: the limits of tokens (e.g. the max length
+        // of an identifier) do not apply inside a comment
+        read_p()
+            .filter(|ch: &char| *ch != '\r' && *ch != '\n')
             .many_allow_none(StringManyCombiner),
     )
 }
